@@ -1,8 +1,10 @@
 (* C05  Every feasible project completes, and the reported status is truthful.
    Statements only; proofs in Proofs/C05Proof.v, Proofs/C05Live.v.
-   PARTIAL: the liveness clause is proved for the class of C05_feasible_projects_complete
-   (no facilities / components, FS and SS links); beyond that class it is
-   searched by the oracle (harness/oracles.py feasible / c05_liveness). *)
+   PARTIAL: the liveness clause is proved for the class of
+   C05_feasible_projects_complete (worker-only projects: no facilities /
+   components; any dependency kinds, tasks with incoming FF / SF links having
+   workers of their own); for projects with facilities it is searched by the
+   oracle (harness/oracles.py feasible / c05_liveness). *)
 From Coq Require Import List ZArith QArith Bool Arith Lia Lqa.
 From PV Require Import Model.Types Model.Sim Model.Example Proofs.Base Proofs.RunLemmas Proofs.C01Proof Proofs.C05Proof Proofs.C05Live.
 Import ListNotations.
@@ -41,7 +43,11 @@ Print Assumptions C05_unservable_task.
 
 (* liveness: every project of the following class completes.
      - the network is acyclic (rank decreases along every input edge, ids in
-       range) and has finish-to-start and start-to-start links only;
+       range), with ANY mix of the four dependency kinds;
+     - a task with an incoming finish-to-finish or start-to-finish link has
+       workers of its own: a worker with a positive skill for it has a positive
+       skill for no other task (such a task may have to wait, holding its
+       workers, until its predecessor is done);
      - no task needs a facility or is bound to a component;
      - every non-automatic task has a worker with a positive skill for it, in
        one of its teams and (when worker ids are fixed) among the fixed ids;
@@ -54,14 +60,17 @@ Print Assumptions C05_unservable_task.
    flags, absence pattern below H and order of the task list.  (The proof: a
    natural-number measure over the unfinished tasks never grows and drops in
    every step after H, because the unfinished task of least rank is READY or
-   WORKING and either it or the task that occupies its eligible worker makes
+   WORKING with an open finish gate, and either it or the task that occupies
+   its eligible worker -- which by the second condition never waits -- makes
    progress >= delta; C06_no_idle_eligible_worker rules out that the worker
    stays idle.) *)
 Theorem C05_feasible_projects_complete : forall c o rank delta H,
   (forall w, In w (all_workers c) -> w < nW c) -> NoDup (all_workers c) ->
   (forall p f, In f (wp_facs c p) -> f < nF c) ->
   (forall t e, t < nT c -> In e (t_inputs c t) -> fst e < nT c /\ rank (fst e) < rank t) ->
-  (forall t e, In e (t_inputs c t) -> snd e = FS \/ snd e = SS) ->
+  (forall t t' w, t < nT c -> t' < nT c ->
+     (exists e, In e (t_inputs c t) /\ (snd e = FF \/ snd e = SF)) ->
+     has_wskill c w t = true -> has_wskill c w t' = true -> t' = t) ->
   (forall t, t < nT c -> t_needfac c t = false /\ t_comp c t = None) ->
   (forall t, t < nT c -> t_auto c t = false ->
      exists w, In w (all_workers c) /\ has_wskill c w t = true /\ w_targets c w t = true
@@ -93,6 +102,23 @@ Proof.
   split; [vm_compute; reflexivity|]. split; [vm_compute; reflexivity|]. split.
   - intros t e Ht He. destruct t as [|[|[|[|t]]]]; cbn in *; try lia; intuition (subst; cbn; lia).
   - intros t Ht _. exists 0. destruct t as [|[|[|[|t]]]]; cbn in Ht; try lia; (split; [left; reflexivity|]); repeat split; try reflexivity; intros l F; discriminate.
+Qed.
+
+(* non-vacuity with a finish-to-finish link: two tasks, each with a worker of
+   its own; task 1 (1 unit) waits for task 0 (3 units), overshooting its work,
+   and the run succeeds at time 3 within the bound 0 + (1+3) + (1+1) = 6 *)
+Example C05_live_example_ff :
+  work_bound ex_ff_cfg 1 = 6
+  /\ status (fst (simulate ex_ff_cfg ex_ff_opts (blank ex_ff_cfg))) = StSuccess
+  /\ l_rem (tl (fst (simulate ex_ff_cfg ex_ff_opts (blank ex_ff_cfg))) 1) = [0; -1; -2]%Q
+  /\ (forall t t' w, t < nT ex_ff_cfg -> t' < nT ex_ff_cfg ->
+        (exists e, In e (t_inputs ex_ff_cfg t) /\ (snd e = FF \/ snd e = SF)) ->
+        has_wskill ex_ff_cfg w t = true -> has_wskill ex_ff_cfg w t' = true -> t' = t).
+Proof.
+  split; [vm_compute; reflexivity|]. split; [vm_compute; reflexivity|]. split; [vm_compute; reflexivity|].
+  intros t t' w Ht Ht' _ H1 H2.
+  destruct t as [|[|t]]; destruct t' as [|[|t']]; cbn in Ht, Ht'; try lia; try reflexivity;
+    destruct w as [|[|w]]; vm_compute in H1, H2; discriminate.
 Qed.
 
 Example C05_example : status ex_final = StSuccess /\ all_finished ex_cfg ex_final = true /\ recorded ex_trace = 6.
